@@ -46,6 +46,13 @@ def check_script(ctx: Ctx, script: dict, shuffles: int) -> dict:
     # (a fresh manager refuses proposals when it has no bounds at all — not a history effect)
     if last_sb is not None and g.sb_in_domain(last_sb) and not (last_sb["incl"] is None and last_sb["excl"] is None):
         live = g.live_proposals(ops, len(ops))
+        if not live and m._component_buckets:  # noqa: SLF001  (a bucket exists, every proposal has expired)
+            final = g.run_op_impl(m, {"op": "calc", "p": None, "sb": last_sb, "must": True})
+            stored = g.run_op_impl(m, {"op": "get"})
+            if final != "0" or stored != "0":
+                ctx.violation("expired proposals stop counting", {"ops": ops, "sb": last_sb},
+                              {"recalculated_target": final, "stored_target": stored, "expected": "0"})
+            tags.add("all-expired")
         if live:
             final = g.run_op_impl(m, {"op": "calc", "p": None, "sb": last_sb, "must": True})
             rng = ctx.subrng("shuffle", len(ctx.nontrivial_hashes), ctx.evaluations)
